@@ -5,6 +5,7 @@ import (
 	"fmt"
 	"net"
 	"net/netip"
+	"strings"
 	"time"
 
 	"github.com/jwhited/corebgp"
@@ -24,19 +25,26 @@ type c13Case struct {
 	State string `json:"state"` // state of P1 when the test connection arrives
 	From  string `json:"from"`  // A (P1) | B (P2) | C (unconfigured) | V6
 	To    string `json:"to"`    // X (10.0.0.1, P1's local address) | Y (10.0.0.5) | W (wildcard listener, 10.0.0.7)
+	// WildOnly: the server has a single wildcard listener (every destination arrives through it).
+	WildOnly bool `json:"wildcard_listener_only,omitempty"`
+	// Before: a connection made (and finished) before the test connection, "<from>><to>", from an unconfigured source.
+	Before string `json:"connection_before,omitempty"`
+	// Burst > 1: that many connections from the same source are opened at the same instant (state must be fresh/idle-wait).
+	Burst int `json:"simultaneous_connections,omitempty"`
 }
 
 var c13States = []string{"fresh", "idle-wait", "connect-stalled", "in-opensent", "in-openconfirm", "est-in", "est-out", "out-opensent", "out-openconfirm", "held-down"}
 
 type c13Obs struct {
-	testConn   *vnet.Conn
-	gotOpen    bool
-	eof        bool
-	bytes      int
-	probeOK    bool
-	probeDone  bool
-	stateReady bool
-	connErr    error
+	testConn                      *vnet.Conn
+	gotOpen                       bool
+	eof                           bool
+	bytes                         int
+	probeOK                       bool
+	probeDone                     bool
+	stateReady                    bool
+	connErr                       error
+	burst, burstOpen, burstClosed int
 }
 
 func c13Addr(from, to string) (string, string) {
@@ -165,7 +173,11 @@ func c13Run(cs c13Case, ch vrt.Chooser, trace bool) (*world.World, *vrt.Exec, *c
 				panic("harness: " + err.Error())
 			}
 		}
-		w.Serve("10.0.0.1:179", "10.0.0.5:179", ":179")
+		if cs.WildOnly {
+			w.Serve(":179")
+		} else {
+			w.Serve("10.0.0.1:179", "10.0.0.5:179", ":179")
+		}
 		// earlier inbound connection from P1 for the in-* states
 		inbound := func(f func(r *world.Remote)) {
 			vrt.GoWorld("remote-in-first", func() {
@@ -239,6 +251,54 @@ func c13Run(cs c13Case, ch vrt.Chooser, trace bool) (*world.World, *vrt.Exec, *c
 		if cs.State == "held-down" {
 			vrt.Sleep(20 * time.Second) // well inside the 60 s hold-down
 		}
+		if cs.Before != "" {
+			parts := strings.Split(cs.Before, ">")
+			bf, bt := c13Addr(parts[0], parts[1])
+			bf = strings.Replace(bf, ":45000", ":45900", 1)
+			if bc, err := w.NW.DialIn(bf, bt); err == nil {
+				br := w.NewRemote(bc, "BEFORE")
+				br.Deadline(time.Second)
+				br.Drain()
+				br.C.Close()
+				br.Finish()
+			}
+			vrt.Sleep(time.Second)
+		}
+		if cs.Burst > 1 {
+			// simultaneous connections from the same source: exactly one may be served
+			from, to := c13Addr(cs.From, cs.To)
+			var conns []*vnet.Conn
+			for i := 0; i < cs.Burst; i++ {
+				if bc, err := w.NW.DialIn(strings.Replace(from, ":45000", fmt.Sprintf(":%d", 45000+i), 1), to); err == nil {
+					conns = append(conns, bc)
+				}
+			}
+			nDone := 0
+			for i, bc := range conns {
+				i, bc := i, bc
+				vrt.GoWorld(fmt.Sprintf("burst%d", i), func() {
+					r := w.NewRemote(bc, "TEST")
+					r.Deadline(2 * time.Second)
+					m, rerr := r.ReadMsg()
+					if rerr == nil && m.Type == wire.TypeOpen {
+						o.burstOpen++
+						r.Deadline(2 * time.Second)
+						r.Drain()
+					} else if r.EOF && len(bc.Peer().Sent) == 0 {
+						o.burstClosed++
+					}
+					nDone++
+					r.Finish()
+				})
+			}
+			vrt.WaitLog("burst-done", func() bool { return nDone == len(conns) })
+			vrt.LogTouch()
+			o.burst = len(conns)
+			w.SetFlag("test-done")
+			w.Close()
+			w.WaitServeDone()
+			return
+		}
 		// the test connection
 		from, to := c13Addr(cs.From, cs.To)
 		c, err := w.NW.DialIn(from, to)
@@ -274,6 +334,18 @@ func c13Judge(cs c13Case, w *world.World, e *vrt.Exec, o *c13Obs) (string, strin
 	want, why := c13Expect(cs)
 	if !o.stateReady {
 		return "setup", fmt.Sprintf("could not bring P1 into state %s", cs.State)
+	}
+	if cs.Burst > 1 {
+		if o.burstOpen > 1 {
+			return "two-inbound-connections-served", fmt.Sprintf("%d of %d simultaneous connections from the same peer were served", o.burstOpen, o.burst)
+		}
+		if o.burstOpen+o.burstClosed != o.burst {
+			return "inadmissible-connection-not-closed", fmt.Sprintf("%d simultaneous connections from the same peer: %d served, %d closed with zero bytes, %d neither (left open or written on)", o.burst, o.burstOpen, o.burstClosed, o.burst-o.burstOpen-o.burstClosed)
+		}
+		if want && o.burstOpen != 1 {
+			return "refused-admissible-connection", fmt.Sprintf("none of %d simultaneous connections from the configured peer was served", o.burst)
+		}
+		return monitorCallbacks(w)
 	}
 	if o.connErr != nil {
 		return "setup", "test connection could not be made: " + o.connErr.Error()
@@ -320,12 +392,34 @@ func c13Cases() []c13Case {
 		for _, st := range c13States {
 			for _, from := range []string{"A", "B", "C", "V6"} {
 				for _, to := range []string{"X", "Y", "W"} {
-					cs := c13Case{peers, st, from, to}
+					cs := c13Case{Peers: peers, State: st, From: from, To: to}
 					if c13Applicable(cs) {
 						out = append(out, cs)
 					}
 				}
 			}
+		}
+	}
+	// a single wildcard listener and an earlier connection from an unconfigured source
+	for _, peers := range []string{"P1", "P1-local"} {
+		for _, st := range []string{"idle-wait", "est-out"} {
+			for _, before := range []string{"", "C>X", "C>Y", "B>X"} {
+				for _, from := range []string{"A", "C"} {
+					for _, to := range []string{"X", "Y", "W"} {
+						out = append(out, c13Case{Peers: peers, State: st, From: from, To: to, WildOnly: true, Before: before})
+					}
+				}
+			}
+		}
+	}
+	// simultaneous connections from the configured peer
+	for _, peers := range []string{"P1", "P1-passive"} {
+		st := "idle-wait"
+		if peers == "P1-passive" {
+			st = "fresh"
+		}
+		for _, n := range []int{2, 3} {
+			out = append(out, c13Case{Peers: peers, State: st, From: "A", To: "X", Burst: n})
 		}
 	}
 	return out
@@ -382,7 +476,7 @@ func c13Check(c *harness.Ctx) {
 	k := 0
 	for _, cs := range cases {
 		// schedules for the connections from the configured peer to its address, and one unconfigured source per state
-		if !(cs.From == "A" && cs.To == "X" || cs.From == "C" && cs.To == "W" && cs.Peers == "P1") {
+		if !(cs.From == "A" && cs.To == "X" || cs.From == "C" && cs.To == "W" && cs.Peers == "P1") || cs.WildOnly {
 			continue
 		}
 		if !c.Thorough() && cs.Peers == "P1-local" {
@@ -395,7 +489,11 @@ func c13Check(c *harness.Ctx) {
 		if c.Expired() {
 			return
 		}
-		if !exploreScn(c, "C13", c13Scn(cs, bound)) {
+		b := bound
+		if cs.Burst > 1 {
+			b = bound + 1
+		}
+		if !exploreScn(c, "C13", c13Scn(cs, b)) {
 			return
 		}
 	}
